@@ -308,4 +308,7 @@ pub struct Plan {
     pub engine: String,
     pub actions: Vec<Action>,
     pub knobs: Knobs,
+    /// plan data of the non-core engines (expert, map, limits)
+    #[serde(default)]
+    pub extra: serde_json::Value,
 }
